@@ -9,6 +9,7 @@ S: independent of the printer model: `chk_print` elaborates the implementation's
 """
 import io
 import os
+import time
 import tempfile
 from fractions import Fraction
 
@@ -441,6 +442,13 @@ def judge(ctx, tag, line, ans, f_readable, info, texts, enc):
             ctx.count("S_%s_%s" % (printer, parts[3]))
         if len(parts) > 2 and parts[1] == "0" and parts[2] != "0":
             ctx.count("S_all_interps_div0")
+        if printer == "tree" and len(parts) > 3 and parts[3] == "other":
+            # the values agreed under the sampled interpretations, but the standard reads a *different term* than the
+            # formula (theorem read_toSexp says: the same term, array values unfolded)
+            sig = {"oracle": "std_reader", "printer": printer, "kind": "structure"}
+            if info["odd_string"]:
+                sig["string_class"] = "non-ascii-or-escape"
+            ctx.report_s(sig, "tree text is read by the standard as a different term than the formula", rep)
         return
     sig = signature(printer, ans, None, info)
     what = "%s text is not standard SMT-LIB with the formula's meaning: %s" % (printer, describe(ans))
@@ -466,27 +474,22 @@ def case_info(f, uni_info):
             "known_ops": sorted(known_ops_in(f))}
 
 
-def run(ctx):
-    quick = ctx.tier == "quick"
-    n_env = 10 if quick else 120
-    per_env = 60 if quick else 110
-    budget_reserve = 45 if quick else 200
+def gen_batch(ctx, n_env, per_env):
+    """generate cases in `n_env` fresh environments -> (lines, meta)"""
     lines, meta = [], []
     for e in range(n_env):
-        if ctx.time_left() < budget_reserve + 25:
-            break
         env = Environment()
         push_env(env)
         try:
             rng = ctx.rng
             mode = rng.random()
             # most universes are free of the known-defect classes, a few exercise each of them
-            allow_unspeakable = mode < 0.12
-            odd_sort = 0.12 <= mode < 0.22
-            allow_known = 0.22 <= mode < 0.34
-            odd_strings = 0.34 <= mode < 0.42
+            allow_unspeakable = mode < 0.10
+            allow_known = 0.10 <= mode < 0.22
+            odd_strings = 0.22 <= mode < 0.30
+            odd_sort = rng.random() < 0.3
             names = NameGen(rng, allow_unspeakable=allow_unspeakable)
-            sort_names = (rng.choice(["my sort", "S#1", "1st"]), rng.choice(["Pair", "p air"])) if odd_sort \
+            sort_names = (rng.choice(["my sort", "S#1", "1st", "Int'"]), rng.choice(["Pair", "p air", "2P"])) if odd_sort \
                 else (rng.choice(["U", "Elem", "T.1"]), rng.choice(["Pair", "Box_2", "P"]))
             uni = C07Universe(env, rng, names, sort_names=sort_names)
             uni_info = {"odd_sort_name": not all(simple_sort_name(s) for s in sort_names)}
@@ -519,8 +522,7 @@ def run(ctx):
                                      {"formula": rd, "enc": enc, "printer": p})
                 if texts.get("no_logic"):
                     ctx.count("script_skipped_no_logic")
-                cl = case_lines(enc, interps_enc, k, texts)
-                for tag, line in cl:
+                for tag, line in case_lines(enc, interps_enc, k, texts):
                     lines.append(line)
                     meta.append((tag, rd, info, texts, enc, f.args() != ()))
                 ctx.count("type_" + str(ty).split("{")[0])
@@ -529,23 +531,41 @@ def run(ctx):
                 if info["unspeakable"]:
                     ctx.count("has_unspeakable_name")
                 if uni_info["odd_sort_name"]:
-                    ctx.count("has_odd_sort_name")
+                    ctx.count("has_sort_name_needing_quotes")
                 if info["odd_string"]:
                     ctx.count("has_odd_string")
                 if len(ctx.samples) < 5 and j % 17 == 3:
                     ctx.sample({"formula": rd, "tree": texts["tree"][1][:300], "dag": texts["dag"][1][:300]})
         finally:
             pop_env()
-    try:
-        answers = ctx.lean_run_sharded("C07", lines)
-    except common.LeanError as e:
-        ctx.report_l("driver C07 does not run", str(e))
-        return
-    for line, ans, (tag, rd, info, texts, enc, nontriv) in zip(lines, answers, meta):
-        if tag.startswith("S:"):
-            ctx.case((tag + enc) if nontriv else None)
-        judge(ctx, tag, line, ans, rd, info, texts, enc)
-    ctx.extra["requests"] = len(lines)
+    return lines, meta
+
+
+def run(ctx):
+    quick = ctx.tier == "quick"
+    n_env, per_env = (8, 60) if quick else (40, 100)
+    deadline = 60 if quick else 780          # seconds of wall time after which no new batch is started
+    total = 0
+    batches = 0
+    while True:
+        t0 = time.time()
+        lines, meta = gen_batch(ctx, n_env, per_env)
+        try:
+            answers = ctx.lean_run_sharded("C07", lines)
+        except common.LeanError as e:
+            ctx.report_l("driver C07 does not run", str(e))
+            return
+        for line, ans, (tag, rd, info, texts, enc, nontriv) in zip(lines, answers, meta):
+            if tag.startswith("S:"):
+                ctx.case((tag + enc) if nontriv else None)
+            judge(ctx, tag, line, ans, rd, info, texts, enc)
+        total += len(lines)
+        batches += 1
+        dt = time.time() - t0
+        if (time.time() - ctx.t0) + dt * 1.1 > deadline or (quick and batches >= 7):
+            break
+    ctx.extra["requests"] = total
+    ctx.extra["batches"] = batches
 
 
 # ------------------------------------------------------------------ replay
